@@ -60,7 +60,7 @@ def history_oracle(rep, cases, opts_of, rundir, profiles=("debug",), on_result=s
         # long histories in parallel on a loaded machine can exceed any fixed per-history limit
         for k, (label, text, r) in enumerate(results):
             p = first_problem(r)
-            if p is not None and "timed out" in str(p[3]):
+            if p is not None and any(m in str(p[3]) for m in ("timed out", "TIMEOUT", "monitor failed")):
                 results[k] = run_many([(label, text)], opts_of, rundir, profile=prof, on_result=on_result, timeout=timeout * 10)[0]
         for label, text, r in results:
             nontriv = r.get("n", 0) > 5
